@@ -107,9 +107,11 @@ PROPS["C07"] = {
     "level": "exploration",
     "rule": ("Scenario = hit-for-pass D in {unset,-5,1,2,5,60,300}s, histories alternating cacheable/uncacheable/failed answers, bursts during the period left pending together, advances around D, D+-1s. "
              "Oracle = during elapsed < D every request has its own upstream request pending at the next quiescent point (never queued, never a hit); at elapsed >= D+1 exactly one probes and the others wait. "
-             "Non-trivial = >=2 passes and >=1 probe after the period."),
-    "assumptions": _SIM_ASSUME,
-    "jobs": [_sim("TestC07", 1500, 40000), _sim("TestC07Store", 400, 15000, qshards=8)],
+             "Non-trivial = >=2 passes and >=1 probe after the period. "
+             "TestC07Burst (engine N, pike's real upstream transport): 1-3 keys made hit-for-pass (or POST requests), then a burst of 40/64/96/130 concurrent requests against an origin that answers each request only once the whole burst is inside its handler (or 5 s have passed): the largest number of requests inside the origin at the same time must equal the burst size. Every case is non-trivial."),
+    "assumptions": _SIM_ASSUME + ["TestC07Burst: a burst of up to 130 loopback requests reaches the origin within the 5 s the origin waits for it"],
+    "jobs": [_sim("TestC07", 1500, 40000), _sim("TestC07Store", 400, 15000, qshards=8),
+             {"engine": "netw", "test": "TestC07Burst", "quick": {"shards": 2, "checks": 6, "timeout": 400, "shrinktime": "10s"}, "thorough": {"shards": 8, "checks": 60, "timeout": 3400, "shrinktime": "30s"}}],
 }
 PROPS["C10"] = {
     "level": "fault_enumeration",
